@@ -8,13 +8,23 @@ Implementation driven (real code from <repo>/src/highdicom/volume.py, spatial.py
   permute_channel_axes, squeeze_channel, random_flip_spatial, random_permute_spatial_axes,
   random_spatial_crop (np.random seeded per call; the model receives the drawn values),
   index tuples with more than three items (refused, D92), get_closest_patient_orientation,
-  handedness.
+  handedness; coordinate -> index QUERIES interleaved with the operations (kinds history_query,
+  query_op_query): inverse_affine, get_geometry().inverse_affine, map_reference_to_indices (plain and
+  round_output + check_bounds), VolumeToVolumeTransformer with the object as target and as source,
+  a probe "which voxel and which values lie at the coordinate an initial voxel had", and the other
+  derived geometric attributes (spacing, direction, position, center_position, handedness).
 Model: coq/theories/C08_Model.v; theorems: C08_Props.v.
 
 A case is a random history (1..8 operations) applied to a real hd.Volume and, in lock
 step, to its VolumeGeometry.  After every step the result (shape, affine, channel table,
 array, coordinate system, frame of reference) of both objects is compared with the model;
 a refused operation leaves the object as it was and the history goes on.
+
+A query event asks the CURRENT volume and its geometry (both, in lock step) and leaves them as they
+are; its answers are judged against the affine / array the object reports at that moment (numpy's own
+inverse of the reported affine, the oracle's own physical-coordinate location map), so a derived
+attribute that went stale - because the object, or the object it was derived from, had been queried
+before - is reported, and so is any dependence of an answer on the query history.
 
 Oracle (independent of the model): after every step every voxel of the result is located
 in the previous volume BY ITS PHYSICAL COORDINATE (computed from the two affines); retained
@@ -45,6 +55,8 @@ ORACLE_PREMISES = [
     '(Base/PySlice.v for slices); np.argsort of 3 elements is stable',
     'random_* methods: the values np.random draws (randint / permutation after np.random.seed) are inputs of '
     'the model, predicted by the harness with the same seed',
+    'np.linalg.inv of a 4x4 affine is modelled by Cramer\'s rule over the rationals (adjugate / determinant); '
+    'np.sqrt enters only squared (spacing ** 2, direction * spacing) so the compared values are rational',
 ]
 MODELLED = ('volume.py: _prepare_getitem_index, _prepare_pad_width, _permute_affine, flip_spatial, '
             'swap_spatial_axes, pad_to/crop_to/pad_or_crop_to_spatial_shape, to_patient_orientation, '
@@ -52,15 +64,23 @@ MODELLED = ('volume.py: _prepare_getitem_index, _prepare_pad_width, _permute_aff
             'Volume.__getitem__/pad/permute_spatial_axes/copy/with_array/get_channel/permute_channel_axes/'
             'squeeze_channel; random_flip_spatial, random_permute_spatial_axes, random_spatial_crop (given the draws); '
             'spatial.py: _transform_affine_matrix(permute_indices), _translate_affine_matrix, '
-            'get_closest_patient_orientation, _normalize_patient_orientation')
-STRATA = ['history', 'history_malformed', 'single', 'closest', 'geom_with_array']
+            'get_closest_patient_orientation, _normalize_patient_orientation; queries: inverse_affine, '
+            'map_indices_to_reference, map_reference_to_indices(round_output, check_bounds), '
+            'VolumeToVolumeTransformer.affine, spacing, direction, position, center_position, handedness, '
+            'get_geometry / copy')
+STRATA = ['history', 'history_malformed', 'single', 'closest', 'geom_with_array', 'history_query',
+          'query_op_query']
 RULE = ('history: 1..8 random operations from the full alphabet on volumes with shape <= 5 per axis, 0-2 '
         'channel dimensions, directions = 48 signed axis permutations, rational rotations (3-4-5, 5-12-13, '
         '1-2-2), integer scaled-orthogonal matrices incl. 45-degree ties, both handednesses, dyadic spacings; '
         'history_malformed: the same with every guard violated somewhere (incl. index tuples of 4-5 items, bad '
         'random_* axes, squeeze of missing / non-singleton / duplicate channels); single: one boundary operation per '
         'case (every slice start/stop/step around the bounds on a length-1..4 axis, all pad width forms x modes); '
-        'closest: get_closest_patient_orientation/handedness of random affines; non-trivial = at least one '
+        'closest: get_closest_patient_orientation/handedness of random affines; history_query: histories of 1..6 '
+        'operations (15% malformed) with query events (1-3 of 12 query kinds, points inside and outside the '
+        'box) before the first operation (60%), after each operation (50%) and at the end (always: '
+        'inverse_affine + probe of initial voxels + 1-2 more); query_op_query: one query kind, one operation '
+        'of every entry point (each kind of the alphabet), then every query kind on the result; non-trivial = at least one '
         'accepted operation that changes shape, affine or array order; distinct by case hash')
 NOT_EXECUTED = ['non-int index items (numpy integers, lists)', 'match_geometry (C09)',
                 'normalize_mean_std / normalize_min_max / clip / astype (value operations, not spatial)']
@@ -236,6 +256,8 @@ def _apply(obj, op, is_geom=False):
     """Apply one encoded operation to a Volume or VolumeGeometry."""
     import numpy as np
     k = op[0]
+    if k == 'query':
+        return obj          # queries are answered by _observe; the object stays (state tracking)
     if k == 'get':
         return obj[_py_index(op[1])]
     if k == 'flip':
@@ -319,6 +341,60 @@ def _snap_geom(g):
             g.coordinate_system.value == 'PATIENT', _for_out(g)]
 
 
+# --------------------------------------------------------------------------- queries
+QUERY_NAMES = ['inv', 'geom', 'rt', 'find', 'xf_to', 'xf_from', 'probe', 'sp2', 'dirsp', 'pos', 'center', 'hand']
+# queries that make the object evaluate the inverse of its OWN affine
+INVERSE_QUERIES = ['inv', 'rt', 'find', 'xf_to', 'probe']
+
+
+def _observe(obj, obj0, q, A0, is_geom):
+    """Answer one query on the real object.  obj0 = the initial object of the history (volume for a
+    volume, geometry for a geometry); A0 = numpy affine of the case (physical coordinates of initial
+    voxels are computed by the harness, not by an object)."""
+    import numpy as np
+    from highdicom.volume import VolumeToVolumeTransformer
+    name = q[0]
+    if name == 'inv':
+        return _aff_out(obj.inverse_affine)
+    if name == 'geom':
+        return _aff_out((obj.copy() if is_geom else obj.get_geometry()).inverse_affine)
+    if name == 'rt':
+        P = obj.map_indices_to_reference(np.array(q[1], dtype=np.int64).reshape(-1, 3))
+        return [float(x) for x in obj.map_reference_to_indices(P).ravel()]
+    if name == 'find':
+        P = obj.map_indices_to_reference(np.array(q[1], dtype=np.int64).reshape(-1, 3))
+        return [int(x) for x in obj.map_reference_to_indices(P, round_output=True, check_bounds=True).ravel()]
+    if name == 'xf_to':
+        return _aff_out(VolumeToVolumeTransformer(obj0, obj).affine)
+    if name == 'xf_from':
+        return _aff_out(VolumeToVolumeTransformer(obj, obj0).affine)
+    if name == 'probe':
+        pts = np.array(q[1], dtype=float).reshape(-1, 3)
+        P = pts @ A0[:3, :3].T + A0[:3, 3]
+        I = obj.map_reference_to_indices(P)
+        out = []
+        for row in I:
+            r = np.rint(row)
+            if np.abs(row - r).max() > 1e-6 or (r < 0).any() or (r >= np.array(obj.spatial_shape)).any():
+                out.append(None)
+                continue
+            j = tuple(int(x) for x in r)
+            out.append([list(j), [] if is_geom else [_num(x) for x in np.asarray(obj.array[j]).ravel().tolist()]])
+        return out
+    if name == 'sp2':
+        return [float(x) * float(x) for x in obj.spacing]
+    if name == 'dirsp':
+        D, sp = np.asarray(obj.direction), [float(x) for x in obj.spacing]
+        return [float(D[i, d]) * sp[d] for d in range(3) for i in range(3)]
+    if name == 'pos':
+        return [float(x) for x in obj.position]
+    if name == 'center':
+        return [float(x) for x in obj.center_position]
+    if name == 'hand':
+        return obj.handedness.value == 'LEFT_HANDED'
+    raise ValueError(name)
+
+
 def run_impl(c):
     k = c['kind']
     if k == 'closest':
@@ -334,9 +410,16 @@ def run_impl(c):
         return r if isinstance(r, Err) else _snap_vol(r)
     v = _mk_volume(c)
     g = v.get_geometry()
+    v0, g0, A0 = v, g, _np_affine(c['affine'])
     out = []
     for op in c['ops']:
         before_v, before_g = _snap_vol(v), _snap_geom(g)
+        if op[0] == 'query':
+            qv = [catch(_observe, v, v0, q, A0, False) for q in op[1]]
+            qg = [catch(_observe, g, g0, q, A0, True) for q in op[1]]
+            mutated = _snap_vol(v) != before_v or _snap_geom(g) != before_g
+            out.append('RECEIVER-MUTATED' if mutated else [qv, qg])
+            continue
         rv = catch(_apply, v, op)
         rg = catch(_apply, g, op, True)
         mutated = _snap_vol(v) != before_v or _snap_geom(g) != before_g
@@ -476,6 +559,18 @@ def _coq_vol(c):
             f"{_coq_bool(c['cs'] == 'PATIENT')} {_oz(c['for'])})")
 
 
+def _coq_pts(pts):
+    return '[' + '; '.join(f'({zlit(a)}, {zlit(b)}, {zlit(d)})' for a, b, d in pts) + ']'
+
+
+def _coq_query(q):
+    n = q[0]
+    if n in ('rt', 'find', 'probe'):
+        return '(' + {'rt': 'QRt', 'find': 'QFind', 'probe': 'QProbe'}[n] + ' ' + _coq_pts(q[1]) + ')'
+    return {'inv': 'QInv', 'geom': 'QGeom', 'xf_to': 'QXfTo', 'xf_from': 'QXfFrom', 'sp2': 'QSp2',
+            'dirsp': 'QDirSp', 'pos': 'QPos', 'center': 'QCenter', 'hand': 'QHand'}[n]
+
+
 def coq_term(c):
     k = c['kind']
     if k == 'closest':
@@ -485,6 +580,11 @@ def coq_term(c):
         op = c['ops'][0]
         return f"(run_geom_with_array {_coq_vol(c)} ({_coq_with_array(op)}))"
     shapes = _shapes_along(c) if any(op[0] == 'rand_crop' for op in c['ops']) else [None] * len(c['ops'])
+    if any(op[0] == 'query' for op in c['ops']):
+        evs = '[' + '; '.join(
+            ('EQuery [' + '; '.join(_coq_query(q) for q in op[1]) + ']') if op[0] == 'query'
+            else f'EOp ({_coq_op(op, sh)})' for op, sh in zip(c['ops'], shapes)) + ']'
+        return f'(run_hist_q {_coq_vol(c)} {evs})'
     ops = '[' + '; '.join(_coq_op(op, sh) for op, sh in zip(c['ops'], shapes)) + ']'
     return f'(run_hist {_coq_vol(c)} {ops})'
 
